@@ -33,8 +33,10 @@ Abs(x) == IF x < 0 THEN -x ELSE x
 Near(x, y, tol) == Abs(x - y) <= tol
 
 Pre(s, op, a) ==
-  CASE op = "mix" -> a.r \in Names /\ \A i \in DOMAIN a.ins : a.ins[i] \in Names
-    [] op = "separate" -> {a.x, a.y} \subseteq Names /\ a.x # a.y /\ ~s.E[a.x]
+  \* a.reach: sum H_in + Q is an enthalpy the mixed material can have inside the model temperature range
+  CASE op = "mix" -> a.r \in Names /\ (\A i \in DOMAIN a.ins : a.ins[i] \in Names) /\ a.reach
+    \* a.reach: H(x) - H(y) is an enthalpy the remaining material can have inside the model temperature range
+    [] op = "separate" -> {a.x, a.y} \subseteq Names /\ a.x # a.y /\ ~s.E[a.x] /\ a.reach
     \* a.reach: the target lies between the stream's values at the two ends of the model temperature range
     [] op \in {"set_H", "set_h", "set_S"} -> a.x \in Names /\ ~s.E[a.x] /\ a.reach
     [] op \in {"set_same_H", "set_same_h", "set_same_S"} -> a.x \in Names /\ ~s.E[a.x]
@@ -96,8 +98,8 @@ Act(op, a) == /\ (Pre(S, op, a) = TRUE) /\ SetS(Post(S, op, a))
 Feed == "feed" \in Ops /\ \E x \in Names, h \in HVals, p \in PVals :
           /\ H' = [H EXCEPT ![x] = h] /\ P' = [P EXCEPT ![x] = p] /\ E' = [E EXCEPT ![x] = FALSE]
           /\ added' = added + (h - (IF E[x] THEN 0 ELSE H[x])) /\ path' = Append(path, [op |-> "feed", a |-> [x |-> x, h |-> h, p |-> p]])
-Mix == "mix" \in Ops /\ \E r \in Names, ins \in UNION {[1..n -> Names] : n \in 0..2}, q \in QVals : Act("mix", [r |-> r, ins |-> ins, Q |-> q])
-Sep == "separate" \in Ops /\ \E x \in Names, y \in Names : Act("separate", [x |-> x, y |-> y])
+Mix == "mix" \in Ops /\ \E r \in Names, ins \in UNION {[1..n -> Names] : n \in 0..2}, q \in QVals : Act("mix", [r |-> r, ins |-> ins, Q |-> q, reach |-> TRUE])
+Sep == "separate" \in Ops /\ \E x \in Names, y \in Names : Act("separate", [x |-> x, y |-> y, reach |-> TRUE])
 SetH == "set_H" \in Ops /\ \E x \in Names, v \in HVals : Act("set_H", [x |-> x, v |-> v, reach |-> TRUE])
 Next == Feed \/ Mix \/ Sep \/ SetH
 vars == <<H, P, E, added, path>>
